@@ -260,6 +260,7 @@ def _infer_dims_shape_and_coords(
     times: typing.Array | None,
     sample_ids: typing.Array,
     additional_coords: Mapping[str, typing.Array],
+    squeeze_surface_nodal: bool = True,
 ) -> tuple[dict[str, typing.Array], dict[tuple[int, ...], tuple[int, ...]]]:
   """Returns full coordinates for given grids and default shape to dims mapping.
 
@@ -268,6 +269,10 @@ def _infer_dims_shape_and_coords(
     times: expected time values. If `None` time shape/dim is not added.
     sample_ids: expected sample values. If `None` sample shape/dim is not added.
     additional_coords: additional coordinates to include.
+    squeeze_surface_nodal: whether arrays of `surface_nodal_shape` are always
+      labeled with (lon, lat) only, as needed for squeezed covariate data. If
+      `False` a shape that also describes a full (single layer) state keeps
+      its level dimension.
 
   Returns:
     all_coords: mapping that represents all supported coordinates.
@@ -303,7 +308,11 @@ def _infer_dims_shape_and_coords(
   # Add unconventional shape for nodal covariate surface data, which have dim=2
   # (lon, lat) in xarray. The singleton dimension for level is added when
   # converting to covariate data.
-  basic_shape_to_dims[coords.surface_nodal_shape] = NODAL_AXES_NAMES
+  if (
+      squeeze_surface_nodal
+      or coords.surface_nodal_shape not in basic_shape_to_dims
+  ):
+    basic_shape_to_dims[coords.surface_nodal_shape] = NODAL_AXES_NAMES
   for dim, value in additional_coords.items():
     if dim == XR_REALIZATION_NAME:
       continue  # Handled in _maybe_update_shape_and_dim_with_time_sample
@@ -431,7 +440,7 @@ def data_to_xarray(
   ):
     additional_coords[XR_SURFACE_NAME] = np.ones(1)
   all_coords, shape_to_dims = _infer_dims_shape_and_coords(
-      coords, times, sample_ids, additional_coords
+      coords, times, sample_ids, additional_coords, squeeze_surface_nodal=False
   )
 
   dims_in_state = set()  # keep track which coordinates should be included.
